@@ -420,3 +420,24 @@ func (e *Engine) implementations(it types.Type) []types.Type {
 	}
 	return out
 }
+
+// someMethodModifies: does any contracted method of (pointer to) struct type st list field name in its modifies clause?
+func (e *Engine) someMethodModifies(st types.Type, field string) bool {
+	n, ok := types.Unalias(st).(*types.Named)
+	if !ok {
+		return true
+	}
+	prefix := "(*" + n.Obj().Name() + ")."
+	for _, fc := range e.cs.Funcs {
+		if fc.Trusted || !strings.HasPrefix(fc.Name, prefix) {
+			continue
+		}
+		for _, m := range fc.Modifies {
+			m = strings.TrimSpace(m)
+			if m == "*" || strings.HasSuffix(m, "."+field) {
+				return true
+			}
+		}
+	}
+	return false
+}
